@@ -31,6 +31,7 @@ var (
 func ResetThreads() {
 	thrs, curThr, preempts, Steps, Deadlock = nil, nil, 0, 0, false
 	YieldHook = nil
+	SyncHook = nil
 	held = map[*sync.Mutex]bool{}
 }
 
@@ -92,6 +93,9 @@ func RunThreads() {
 		coSwitch(next.id)
 		curThr = nil
 	}
+	if SyncHook != nil {
+		SyncHook()
+	}
 }
 
 // ThreadID identifies the running harness thread (0: not inside RunThreads).
@@ -111,8 +115,18 @@ func Yield() {
 	if YieldHook != nil {
 		YieldHook()
 	}
+	if SyncHook != nil {
+		SyncHook()
+	}
 	coSwitch(0)
+	if SyncHook != nil {
+		SyncHook()
+	}
 }
+
+// SyncHook, when set (native replay with real unmapping only), runs on both sides of
+// every scheduling point: the mmap model uses it to keep separate views of one file coherent.
+var SyncHook func()
 
 // YieldHook, when set, runs at every scheduling point of a thread before control goes
 // back to the scheduler (harnesses use it to kill a "process" at an arbitrary step).
